@@ -68,7 +68,10 @@ pub fn record(args: &Args) {
     let specials = [1u64, 7, 8, 9, 16, 63, 64, 65, 128, 511, 512, 513, 520, 600, 1000, 2000];
     rt.block_on(async {
         for run in 0..runs {
-            let len = if run % 3 == 0 {
+            let len = if run % 5 == 1 {
+                // long ranges: more than MAX_CONCURRENT_REQS batches of MAX_AMOUNT_PER_REQ
+                rng.gen_range(513..=max_len.max(514))
+            } else if run % 3 == 0 {
                 let s: Vec<u64> = specials.iter().copied().filter(|x| *x <= max_len).collect();
                 s[rng.gen_range(0..s.len())]
             } else {
